@@ -234,6 +234,9 @@ def check(model: Model, run: Run) -> None:
     from .c19 import parse_results_fresh
     parse_results_fresh(model, run, "sansldap.schema", "H7-parse-results-are-fresh", "from_string(str(x)) == x")
 
+    from .c17 import hooks_store_fields_as_given
+    hooks_store_fields_as_given(model, run, [f"{SCHEMA}.{c}" for c in CLASSES], "H12-fields-held-as-given",
+                                "a definition built from parsed text is changed again on construction, so text -> object -> text -> object is not the identity the round trip needs")
     # ---- (3) keyword skeleton of __str__ is a sentence of the pattern ------------------
     for cname in CLASSES:
         keyword_skeleton(model, run, folder, cname)
